@@ -1,5 +1,8 @@
 import SkimModel.Driver.C01
+import SkimModel.Driver.C09
+import SkimModel.Driver.C10
 import SkimModel.Driver.C15
+import SkimModel.Driver.C16
 import SkimModel.Driver.C18
 open SkimModel.Driver
 
@@ -16,6 +19,15 @@ def answer (line : String) : String :=
       | .ok (m, s) => m ++ "\t" ++ (if impl == s then "ok" else "bad:differs-from-reference-editor")
       | .error e => "error:" ++ e ++ "\terror"
     | "C01" | "C14" | "C05" | "C10S" => C01.answer case impl
+    | "C09" => C09.answer case impl
+    | "C10" =>
+      match C10.handle case impl with
+      | .ok (m, v) => m ++ "\t" ++ v
+      | .error e => "error:" ++ e ++ "\terror"
+    | "C16" =>
+      match C16.handle case impl with
+      | .ok (m, v) => m ++ "\t" ++ v
+      | .error e => "error:" ++ e ++ "\terror"
     | "C15" => C15.answer case impl
     | _ => "error:unknown-property\terror"
   | _ => "error:bad-line\terror"
